@@ -7,6 +7,8 @@ import os
 import gen_trie
 import rtree_corr
 import vlib
+import gen_repo
+import repo_common
 
 PID = "C02"
 
@@ -121,8 +123,6 @@ def run(R):
     # the clause about the default rule / "no rule", and the repository-level wiring the tree is used through
     # (rules added in rule-set order, each with its backtracking setting, lookup of the normalised raw path, fall back
     # to the default rule): rule-set cases through the real rule factory, processor and repository
-    import gen_repo
-    import repo_common
     nr = 500 if R.tier == "quick" else 20000
     repo_cases = [gen_repo.gen_repo_case(R.rng) for _ in range(nr)]
     rimpl, _, _ = repo_common.check_correspondence(R, exe, repo_cases, "lookup through the repository (default rule, no rule, rule-set order)")
